@@ -317,6 +317,10 @@ type Type struct {
 	Type            []*Type    `yang:"type"` // len > 1 only when Name is "union"
 
 	YangType *YangType
+
+	// resolveFailed is set when resolving the type reported errors; such a
+	// type is resolved again by the next Process.
+	resolveFailed bool
 }
 
 func (Type) Kind() string             { return "type" }
